@@ -154,7 +154,7 @@ def erf_case(ctx, PL, rng, name, tier):
         return
     sc = bnd["scale"]
     cbn = np.asarray(bnd["coefs"], dtype=float)
-    if not (sc is not None and sc > 0) or float(np.max(np.abs(cbn - sc * fit))) > 1e-9 * big * sc:
+    if not (sc is not None and sc > 0) or cbn.shape != fit.shape or float(np.max(np.abs(cbn - sc * fit))) > 1e-9 * big * sc:
         ctx.violation("c16:not-a-multiple:" + name, "bounded Chebyshev-mode output is not a positive multiple (the returned scale) of the least-squares fit", dict(replay, scale=sc))
 
 
